@@ -134,6 +134,12 @@ def it_drop_end (c : Cfg) (it : It) (s : VW) : VW × Outcome Unit :=
   let r := dropRestP c s.2 it
   ((s.1, r.1), if r.2 then .panic else .ok ())
 
+/-- `ptr::copy_nonoverlapping(self.as_ptr().add(src), other.as_mut_ptr(), n)`: `n` slots of the receiver's buffer into the start of
+a second vector's buffer (that vector is a value next to the threaded one) -/
+def copy_out (c : Cfg) (src n : Nat) (other : VS) (s : VW) : VW × Outcome VS :=
+  let r := other.copyFrom c ((s.1.slots.drop src).take n) 0 s.2
+  ((s.1, r.2), .ok r.1)
+
 /-- drop glue of an owned local while unwinding (a second panic here would abort the process) -/
 def drop_elem (c : Cfg) (e : Elem) (s : VW) : VW := (s.1, (dropElem c s.2 e).1)
 
